@@ -16,12 +16,17 @@ enum QOp {
 }
 
 fn to_path(ops: &[QOp], evenodd: bool) -> Path {
+    to_path_scaled(ops, evenodd, 0.25)
+}
+
+/// grid units times a power of two (exact in f32, so the integer oracle stays exact at any scale)
+fn to_path_scaled(ops: &[QOp], evenodd: bool, unit: f32) -> Path {
     Path {
         ops: ops
             .iter()
             .map(|o| match o {
-                QOp::Move(x, y) => PathOp::MoveTo(Point::new(*x as f32 / 4., *y as f32 / 4.)),
-                QOp::Line(x, y) => PathOp::LineTo(Point::new(*x as f32 / 4., *y as f32 / 4.)),
+                QOp::Move(x, y) => PathOp::MoveTo(Point::new(*x as f32 * unit, *y as f32 * unit)),
+                QOp::Line(x, y) => PathOp::LineTo(Point::new(*x as f32 * unit, *y as f32 * unit)),
                 QOp::Close => PathOp::Close,
             })
             .collect(),
@@ -131,16 +136,20 @@ fn gen_poly(rng: &mut Rng, range: i64) -> Vec<QOp> {
 }
 
 fn check_queries(ops: &[QOp], evenodd: bool, queries: &[(i64, i64)], st: &mut Stats) -> Option<String> {
-    let path = to_path(ops, evenodd);
+    check_queries_scaled(ops, evenodd, queries, st, 0.25)
+}
+
+fn check_queries_scaled(ops: &[QOp], evenodd: bool, queries: &[(i64, i64)], st: &mut Stats, unit: f32) -> Option<String> {
+    let path = to_path_scaled(ops, evenodd, unit);
     let segs = segments(ops);
     for &(qx, qy) in queries {
         let (on, w) = exact(&segs, qx, qy);
         let inside = if evenodd { w & 1 != 0 } else { w != 0 };
         let want = on || inside;
-        let got = path.contains_point(0.1, qx as f32 / 4., qy as f32 / 4.);
+        let got = path.contains_point(0.1, qx as f32 * unit, qy as f32 * unit);
         st.add(if on { "queries_on_a_segment" } else if inside { "queries_inside" } else { "queries_outside" }, 1);
         if got != want {
-            return Some(format!("contains_point({}, {}) = {} but the point is {} (winding number {})", qx as f32 / 4., qy as f32 / 4., got, if on { "on a segment".to_string() } else if inside { "inside".to_string() } else { "outside".to_string() }, w));
+            return Some(format!("contains_point({}, {}) = {} but the point is {} (winding number {})", qx as f32 * unit, qy as f32 * unit, got, if on { "on a segment".to_string() } else if inside { "inside".to_string() } else { "outside".to_string() }, w));
         }
     }
     None
@@ -206,11 +215,15 @@ pub fn run(ctx: &Ctx) -> Outcome {
         let path = to_path(&ops, evenodd);
         let answers: Vec<bool> = queries.iter().map(|q| path.contains_point(0.1, q.0 as f32 / 4., q.1 as f32 / 4.)).collect();
         co.nontrivial = answers.iter().any(|a| *a) && answers.iter().any(|a| !*a);
-        if let Some(v) = check_queries(&ops, evenodd, &queries, st) {
-            co.viol("C17", v);
+        // the same polygon and queries at another power-of-two scale (tiny and large coordinates)
+        let unit = *rng.pick(&[0.25f32, 0.25, 1.0, 64.0, 1.0 / 1024., 1.0 / 65536., 1.0 / 1048576.]);
+        st.add(&format!("unit:{}", unit), 1);
+        if let Some(v) = check_queries_scaled(&ops, evenodd, &queries, st, unit) {
+            co.viol("C17", format!("(grid unit {}) {}", unit, v));
         }
         if want || !co.violations.is_empty() {
             let mut d = J::obj();
+            d.set("grid_unit", J::s(&format!("{}", unit)));
             d.set("path", J::s(&path_str(&path)));
             d.set("queries(quarter units)", J::s(&format!("{:?}", queries)));
             co.desc = Some(d);
